@@ -489,3 +489,6 @@ def replay(w):
     else:
         r = run_shard({"kind": "plugin", "item": w["item"], "seed": 0})
     return r.violations
+
+
+RULE += ' Large dense enums (31..300 members, with aliases / a gap / starting at 1 / one negative member) and undeclared probes -1, -n, -n-1 and a random number in [-n, -1].'
